@@ -234,6 +234,7 @@ def run_columns(ctx):
             for k, exts in lists.items():
                 if k in cols:
                     exp[k] = "true" if any(name.lower().endswith(e) for e in exts) else "false"
+                    st.setdefault("ext_obs", []).append((name, k, None, v.get(k)))
             if stat.S_ISREG(ls.st_mode):
                 data = open(p, "rb").read()
                 exp.update(sha1=hashlib.sha1(data).hexdigest(), sha256=hashlib.sha256(data).hexdigest(), sha512=hashlib.sha512(data).hexdigest(),
@@ -274,10 +275,29 @@ def run_columns(ctx):
         for row in rows:
             for k, got in zip(ccols, row[1:]):
                 want = "true" if any(row[0].lower().endswith(e) for e in over[k]) else "false"
+                st.setdefault("ext_obs", []).append((row[0], k, over[k], got))
                 if got != want:
                     ctx.violation("impl-violates-spec", "with the list %s = %s in the configuration, %s of %r is %s" % (k, over[k], k, row[0], got), input={"query": r["query"], "config": over})
                     break
         st["ok"] += len(rows)
+    # correspondence: the same verdicts from util::has_extension and the default lists as regenerated from the source (gen/ExtGen.v)
+    from .common import coq_eval, gstr, glist, parse_nested
+    obs = [o for o in st.get("ext_obs", []) if all(ord(c) < 0x110000 for c in o[0])]
+    seen, uniq = set(), []
+    for o in obs:
+        key = (o[0], o[1], None if o[2] is None else tuple(o[2]))
+        if key not in seen and len(uniq) < (400 if ctx.tier == "quick" else 20000):
+            seen.add(key)
+            uniq.append(o)
+    hdr = "From Coq Require Import List NArith Bool.\nFrom FS Require Import lib.Str gen.ExtGen.\nImport ListNotations. Open Scope N_scope.\n"
+    exprs = ["(if has_extension %s %s then 1 else 0)" % (gstr(nm), ("default_" + k) if lst is None else glist([gstr(e) for e in lst], "str")) for nm, k, lst, _ in uniq]
+    for (nm, k, lst, got), mt in zip(uniq, coq_eval(hdr, exprs, ctx.scratch, tag="c04ext", shard=100)):
+        mv = "true" if parse_nested(mt) == 1 else "false"
+        if mv != got:
+            ctx.violation("correspondence-mismatch", "%s of %r: the binary says %s, has_extension as regenerated from util/mod.rs says %s" % (k, nm, got, mv),
+                          input={"name": nm, "column": k, "list": lst or "default"}, concrete=False, correspondence="binary extension classes vs gen.ExtGen.has_extension")
+        else:
+            st["ext_model_agreed"] = st.get("ext_model_agreed", 0) + 1
     # recorded finding F50
     from .common import load_known
     for k in load_known():
@@ -303,7 +323,7 @@ def run(ctx):
             ctx.proof_failure = "coqchk failed: " + out[-500:]
     m = run_modes(ctx)
     c = run_columns(ctx)
-    ctx.coverage["columns_part"] = dict(queries=c["n"], entries_checked=c["ok"], distinct_entries=len(c["distinct"]), samples=c["samples"],
+    ctx.coverage["columns_part"] = dict(queries=c["n"], entries_checked=c["ok"], extension_verdicts_equal_to_regenerated_has_extension=c.get("ext_model_agreed", 0), distinct_entries=len(c["distinct"]), samples=c["samples"],
                                         rule="random trees (files with contents: empty, shebang, no trailing newline, binary, > 64 KiB, 9000 newlines; mtimes incl. 0 and 2038+; owners without a name; xattrs; sockets; links incl. dangling; dot-files, several dots, upper-case extensions) - columns path,name,ext,dir,abspath,absdir,size,uid,gid,user,group,inode,hardlinks,blocks,modified,is_hidden,is_empty, the eight extension classes (default lists read from config.rs, and a configuration file overriding every list with plain, compound and dot-less endings), sha1/sha256/sha512/sha3, line_count, is_shebang, has_xattrs compared with os.lstat, pwd/grp, hashlib and the directory contents")
     ctx.coverage.update(
         evaluations=m["evaluations"] + c["ok"], distinct_nontrivial=m["distinct"] + len(c["distinct"]),
